@@ -74,9 +74,10 @@ func newCliWorld(r *Run, org origin, uri string, fate func(nr *netReq) *netFate)
 			r.SetDelay(site, time.Duration(r.T.Intn(4)))
 		}
 		r.Probe("client-goroutine-order-perturbed")
-		// C12/C13: one site additionally holds its goroutine long enough for Close, a fault or a delivery to land
-		// while the hand-over is half done
-		if (r.Prop == "C12" || r.Prop == "C13") && r.T.Chance(1, 2) {
+		// C12: one site additionally holds its goroutine long enough for Close, a fault or a delivery to land while
+		// the hand-over is half done (not in C13: there the client mostly ends through errors of its own, at instants
+		// the harness does not control, and the length of such a shutdown would depend on the runtime's scheduling)
+		if r.Prop == "C12" && r.T.Chance(1, 2) {
 			site := clientDelaySites[r.T.Intn(len(clientDelaySites))]
 			if r.T.Chance(1, 2) {
 				site = "client.processor.beforePush" // the one site inside a loop: fragment by fragment, sample by sample
